@@ -16,7 +16,7 @@
      lookup_lenient  the variant "OID matches OR name matches, first match in command-line order"
                      (not what the C does; kept to state that it is order dependent)
    Theorems at the end of the file (re-exported in Props/Properties_C12.v). *)
-From Coq Require Import List Bool Arith Permutation Lia.
+From Coq Require Import List Bool Arith Permutation Lia ZArith.
 Import ListNotations.
 
 Definition oid := list nat.
@@ -87,6 +87,9 @@ Fixpoint accepted_b (ms : list lmod) : bool :=
                         | _, _ => negb (Nat.eqb (m_name m) (m_name x))
                         end) r && accepted_b r
   end.
+
+(* what the front end prints for a module found *)
+Definition id_z (m : lmod) : Z := Z.of_nat (m_id m).
 
 (* ---------------------------------------------------------------- proofs *)
 
